@@ -662,3 +662,38 @@ pub fn show_bytes(bytes: &[u8]) -> String {
     }
     s
 }
+
+// ---------------------------------------------------------------------------------------
+// logging: flipdot uses the `log` macros; their arguments are only evaluated (and Display impls only run) when a
+// logger is installed and the level is enabled. Selected parts are repeated with a silent logger at Trace level.
+
+struct SilentLogger;
+
+struct NullSink;
+impl std::fmt::Write for NullSink {
+    fn write_str(&mut self, _: &str) -> std::fmt::Result {
+        Ok(())
+    }
+}
+
+impl log::Log for SilentLogger {
+    fn enabled(&self, _: &log::Metadata<'_>) -> bool {
+        true
+    }
+    fn log(&self, record: &log::Record<'_>) {
+        // format the record (this runs the Display impls of the arguments) and throw the text away
+        let _ = std::fmt::write(&mut NullSink, *record.args());
+    }
+    fn flush(&self) {}
+}
+
+static LOGGER: SilentLogger = SilentLogger;
+
+/// Run `f` with logging enabled at Trace level (process-wide; parts run one after the other, so this is deterministic).
+pub fn with_logging<T>(f: impl FnOnce() -> T) -> T {
+    let _ = log::set_logger(&LOGGER);
+    log::set_max_level(log::LevelFilter::Trace);
+    let r = f();
+    log::set_max_level(log::LevelFilter::Off);
+    r
+}
